@@ -760,6 +760,10 @@ pub struct TcpUriCase {
     pub via: u8,
     /// the resolver answers with nothing (false) or with one loopback address whose port is held closed (true)
     pub answer: bool,
+    /// transport configuration: bits 0-1 happy-eyeballs concurrency (None, Some(0), Some(1), Some(2)),
+    /// bit 2 no happy-eyeballs timeout, bit 3 no connect timeout
+    #[serde(default)]
+    pub cfgsel: u8,
 }
 
 pub struct TcpUriEngine;
@@ -793,6 +797,7 @@ impl Engine for TcpUriEngine {
         let rt = tokio::runtime::Builder::new_current_thread().enable_all().build().unwrap();
         let via = c.via % 3;
         let answer = c.answer;
+        let cfgsel = c.cfgsel;
         let method = c.req.method();
         let version = c.req.version();
         let uri2 = uri.clone();
@@ -806,8 +811,9 @@ impl Engine for TcpUriEngine {
                     _ => vec![],
                 };
                 let mut cfg = TcpTransportConfig::default();
-                cfg.connect_timeout = Some(std::time::Duration::from_millis(300));
-                cfg.happy_eyeballs_timeout = Some(std::time::Duration::from_millis(300));
+                cfg.connect_timeout = if cfgsel & 8 != 0 { None } else { Some(std::time::Duration::from_millis(300)) };
+                cfg.happy_eyeballs_timeout = if cfgsel & 4 != 0 { None } else { Some(std::time::Duration::from_millis(300)) };
+                cfg.happy_eyeballs_concurrency = [None, Some(0), Some(1), Some(2)][(cfgsel & 3) as usize];
                 let resolver = crate::engines::addrsort::ListResolver(list);
                 let fut = async {
                     match via {
@@ -855,5 +861,5 @@ impl Engine for TcpUriEngine {
 
 pub fn tcpuri_strategy() -> impl proptest::strategy::Strategy<Value = TcpUriCase> {
     use proptest::prelude::*;
-    (strategy(), prop_oneof![2 => Just(None), 1 => (0u8..DEGENERATE_URIS.len() as u8).prop_map(Some)], prop_oneof![3 => Just(0u8), 3 => Just(1u8), 1 => Just(2u8)], any::<bool>()).prop_map(|(req, special, via, answer)| TcpUriCase { req, special, via, answer })
+    (strategy(), prop_oneof![2 => Just(None), 1 => (0u8..DEGENERATE_URIS.len() as u8).prop_map(Some)], prop_oneof![3 => Just(0u8), 3 => Just(1u8), 1 => Just(2u8)], any::<bool>(), 0u8..16).prop_map(|(req, special, via, answer, cfgsel)| TcpUriCase { req, special, via, answer, cfgsel })
 }
